@@ -15,6 +15,9 @@ import (
 	"sync"
 	"sync/atomic"
 
+	"github.com/dgraph-io/badger/v4"
+	"github.com/dgraph-io/badger/v4/options"
+
 	"github.com/oasisprotocol/oasis-core/go/storage/mkvs"
 	dbapi "github.com/oasisprotocol/oasis-core/go/storage/mkvs/db/api"
 	"github.com/oasisprotocol/oasis-core/go/storage/mkvs/node"
@@ -408,6 +411,7 @@ type ndMismatch struct {
 	Shape    string   `json:"shape"`
 	Noisy    bool     `json:"noisy_batches"`
 	Reuse    bool     `json:"long_lived_trees"`
+	Restart  bool     `json:"restarts_and_compaction"`
 }
 
 // ndOrigin follows the same-version parents of the root a failure is about back to the root the chain was started from: a
@@ -627,20 +631,73 @@ func ndSharesKV(b *ndBehaviour, i int) bool {
 	return false
 }
 
+// ndChurn: environment steps of NodeDB.tla that leave the abstract state alone (Restart, Compact).  The database directory is
+// opened and closed `rounds` times by a foreign writer that adds one unrelated key at the metadata timestamp (every close
+// flushes one more table to level zero of the LSM tree, as every restart of a node does), then the node database is opened
+// again and asked to compact.  With six tables on level zero the compaction runs and badger drops whatever the discard timestamp
+// set on open / by Prune allows it to drop.
+func ndChurn(dir string, rounds int) error {
+	for i := 0; i < rounds; i++ {
+		opts := badger.DefaultOptions(dir).WithLogger(nil).WithSyncWrites(false).WithCompression(options.Snappy).WithDetectConflicts(false)
+		db, err := badger.OpenManaged(opts)
+		if err != nil {
+			return err
+		}
+		tx := db.NewTransactionAt(1, true)
+		if err = tx.Set([]byte{0xfe, byte(i)}, []byte{byte(i)}); err == nil {
+			err = tx.CommitAt(1, nil)
+		}
+		if cerr := db.Close(); err == nil {
+			err = cerr
+		}
+		if err != nil {
+			return err
+		}
+	}
+	return nil
+}
+
+// restartCompact closes the database, lets ndChurn age the directory, re-opens it, compacts, and re-checks the expectations.
+func (r *ndRun) restartCompact(dir string, e *ndExpect) *ndFail {
+	for k, t := range r.live {
+		t.Close()
+		delete(r.live, k)
+	}
+	r.ndb.Close()
+	if err := ndChurn(dir, 6); err != nil {
+		return ndFailf("harness", "churn: %v", err)
+	}
+	ndb, err := openNodeDB(r.backend, dir)
+	if err != nil {
+		return ndFailf("reopen", "open after restarts: %v", err)
+	}
+	r.ndb = ndb
+	if err = ndb.Compact(); err != nil {
+		return ndFailf("reopen", "Compact: %v", err)
+	}
+	if f := r.check(e); f != nil {
+		f.Msg = "after restarts and a compaction: " + f.Msg
+		return f
+	}
+	return nil
+}
+
 func ndRunBehaviour(b *ndBehaviour, backend, dir string, noisy bool, reuse ...bool) (*ndMismatch, int) {
 	ndb, err := openNodeDB(backend, dir)
 	if err != nil {
 		return &ndMismatch{Backend: backend, Fail: ndFailf("error", "open: %v", err)}, 0
 	}
-	defer ndb.Close()
 	r := &ndRun{backend: backend, ndb: ndb, ctx: context.Background(), roots: map[string]node.Root{}, noisy: noisy,
 		reuse: len(reuse) > 0 && reuse[0], live: map[string]mkvs.Tree{}}
 	defer func() {
 		for _, t := range r.live {
 			t.Close()
 		}
+		r.ndb.Close()
 	}()
 	n := 0
+	// on-disk runs (dir != ""): the database is restarted and compacted after the first prune and at the end of the history
+	churned := false
 	for i := range b.Steps {
 		n++
 		var f *ndFail
@@ -648,6 +705,10 @@ func ndRunBehaviour(b *ndBehaviour, backend, dir string, noisy bool, reuse ...bo
 			f = r.applyOp(&b.Steps[i].Op)
 			if f == nil {
 				f = r.check(&b.Steps[i].Expect)
+			}
+			if f == nil && dir != "" && ((b.Steps[i].Op.A == "prune" && !churned) || i == len(b.Steps)-1) {
+				churned = true
+				f = r.restartCompact(dir, &b.Steps[i].Expect)
 			}
 		}); perr != nil {
 			f = &ndFail{Kind: "panic", Msg: perr.Error()}
@@ -659,6 +720,15 @@ func ndRunBehaviour(b *ndBehaviour, backend, dir string, noisy bool, reuse ...bo
 	return nil, n
 }
 
+func ndPrunes(b *ndBehaviour) bool {
+	for i := range b.Steps {
+		if b.Steps[i].Op.A == "prune" {
+			return true
+		}
+	}
+	return false
+}
+
 func nodedbReplay(args []string) int {
 	fs := flag.NewFlagSet("nodedb-replay", flag.ExitOnError)
 	in := fs.String("in", "-", "behaviours")
@@ -667,6 +737,7 @@ func nodedbReplay(args []string) int {
 	gated := fs.Bool("gated", false, "run a full reader at every durable-write point of every operation (hook H1)")
 	noise := fs.String("noise", "alt", "batches with net no-op writes: off | alt (every second behaviour) | both (every behaviour is run plain and noisy)")
 	reuse := fs.String("reuse", "both", "also run with tree objects kept across commits: off | alt (every second pair of behaviours) | both (every behaviour)")
+	restart := fs.Int("restart", 0, "k > 0: every k-th behaviour that prunes also runs on disk, with restarts and a compaction after the first prune and at the end")
 	fs.Parse(args)
 	r, err := openIn(*in)
 	if err != nil {
@@ -683,6 +754,7 @@ func nodedbReplay(args []string) int {
 		bad                         atomic.Bool
 		gatedReads                  int
 		gateCounts                  = map[string]int{}
+		nRestart                    int
 	)
 	nWorkers := runtime.NumCPU()
 	if *gated {
@@ -748,6 +820,21 @@ func nodedbReplay(args []string) int {
 						} else if m != nil {
 							m.Noisy = *noise == "alt" && myIdx%2 == 1
 						}
+						if m == nil && *restart > 0 && myIdx%*restart == 0 && ndPrunes(&b) {
+							dir, derr := os.MkdirTemp("", "ndrestart-")
+							if derr == nil {
+								var n2 int
+								m, n2 = ndRunBehaviour(&b, be, dir, false)
+								n += n2
+								os.RemoveAll(dir)
+								mu.Lock()
+								nRestart++
+								mu.Unlock()
+								if m != nil {
+									m.Restart = true
+								}
+							}
+						}
 						if m == nil && *reuse != "off" && (*reuse == "both" || (myIdx/2)%2 == 1) {
 							// the same history once more with long-lived tree objects (plain and with no-op writes in turn)
 							var n2 int
@@ -809,7 +896,7 @@ func nodedbReplay(args []string) int {
 		nm += c
 	}
 	w.Write(mustJSON(map[string]any{
-		"emitted": total, "behaviours": nBeh, "runs": nRuns, "steps": nSteps, "not_accepted_by_pathbadger": nSkipP,
+		"emitted": total, "behaviours": nBeh, "runs": nRuns, "restart_runs": nRestart, "steps": nSteps, "not_accepted_by_pathbadger": nSkipP,
 		"mismatch_count": nm, "classes": classes, "gated_reads": gatedReads, "gates": gateCounts, "mismatches": mism, "samples": samples, "op_counts": opCounts,
 	}))
 	return 0
